@@ -98,6 +98,7 @@ struct Args {
     known: PathBuf,
     replay_dir: PathBuf,
     fault_free_only: bool,
+    no_enum: bool,
     profile_note: String,
     merge_summary: Option<PathBuf>,
     write_summary: Option<PathBuf>,
@@ -121,6 +122,7 @@ fn parse_args() -> Result<Args, String> {
         known: PathBuf::from("/verif/known_findings.json"),
         replay_dir: PathBuf::from("/verif/replays"),
         fault_free_only: false,
+        no_enum: false,
         profile_note: "sim (opt-level 2, debug-assertions on, overflow-checks on)".into(),
         merge_summary: None,
         write_summary: None,
@@ -145,6 +147,7 @@ fn parse_args() -> Result<Args, String> {
             "--known" => a.known = PathBuf::from(val("--known")?),
             "--replay-dir" => a.replay_dir = PathBuf::from(val("--replay-dir")?),
             "--fault-free-only" => a.fault_free_only = true,
+            "--no-enum" => a.no_enum = true,
             "--profile-note" => a.profile_note = val("--profile-note")?,
             "--merge-summary" => a.merge_summary = Some(PathBuf::from(val("--merge-summary")?)),
             "--write-summary" => a.write_summary = Some(PathBuf::from(val("--write-summary")?)),
@@ -174,7 +177,7 @@ fn main() {
             std::process::exit(2);
         }
     };
-    let code = match args.cmd.as_str() {
+    let code = std::panic::catch_unwind(std::panic::AssertUnwindSafe(|| match args.cmd.as_str() {
         "check" => cmd_check(&args),
         "replay" => cmd_replay(&args),
         "probe" => cmd_probe(),
@@ -182,7 +185,11 @@ fn main() {
             eprintln!("HARNESS-ERROR: unknown command {:?}", other);
             2
         }
-    };
+    }))
+    .unwrap_or_else(|_| {
+        eprintln!("HARNESS-ERROR: the simulator itself panicked (see above); no verdict");
+        2
+    });
     std::process::exit(code);
 }
 
@@ -313,7 +320,7 @@ fn cmd_check(args: &Args) -> i32 {
     let t1 = Instant::now();
     let values = sim::corpus_values(prop, enum_extra, args.seed);
     let n_values = values.len();
-    let en = if args.fault_free_only {
+    let en = if args.fault_free_only || args.no_enum {
         sim::BatchResult { stats: Stats::default(), found: vec![], samples: vec![], executed: 0, digests: vec![] }
     } else {
         sim::run_enumeration(values, args.workers)
